@@ -2954,10 +2954,26 @@ class VM:
                     return source_map[ip]
         return None, None
 
+    def _is_error_object(self, obj: JSObject) -> bool:
+        """True for objects made by Error or one of its subclasses."""
+        error_ctor = self.globals.get("Error")
+        error_proto = getattr(error_ctor, "_prototype", None)
+        if error_proto is None and isinstance(error_ctor, JSObject):
+            error_proto = error_ctor.get("prototype")
+        proto = obj._prototype
+        hops = 0
+        while proto is not None and hops < 100:
+            if proto is error_proto:
+                return True
+            proto = getattr(proto, "_prototype", None)
+            hops += 1
+        return False
+
     def _throw(self, exc: JSValue, locate: bool = True) -> None:
         """Throw an exception."""
         # Try to add source location to error object
-        if locate and isinstance(exc, JSObject):
+        # (only error objects carry one; any other thrown value arrives unchanged)
+        if locate and isinstance(exc, JSObject) and self._is_error_object(exc):
             line, column = self._get_source_location()
             if line is not None:
                 exc.set("lineNumber", line)
